@@ -181,6 +181,16 @@ func (fr *Frame) callContract(bc *BoundContract, args []Val, p token.Pos) []Val 
 	} else if c.Abstract != "" {
 		fr.cx.trust(fmt.Sprintf("contract of %s assumed, body not verified: %s", bc.Name(), c.Abstract))
 	}
+	for _, a := range args {
+		if a.t != nil {
+			fr.cx.noteEscape(a.t)
+		}
+		if a.fn != nil {
+			for _, bv := range a.fn.bindings {
+				fr.cx.noteEscape(bv.t)
+			}
+		}
+	}
 	old := fr.st.clone()
 	vars := bc.bindParams(args)
 	pkg := fr.eng().typesPackage(c.PkgPath)
@@ -195,6 +205,9 @@ func (fr *Frame) callContract(bc *BoundContract, args []Val, p token.Pos) []Val 
 	for _, mc := range c.Modifies {
 		for _, x := range mc.Exprs {
 			for _, m := range fr.evalLocs(menv, x, mc) {
+				if m.loc != nil {
+					fr.checkGuard(m.loc, m.typ, p, "call "+short)
+				}
 				fr.cx.havocLoc(fr.st, m)
 			}
 		}
@@ -265,6 +278,11 @@ func (fr *Frame) callContract(bc *BoundContract, args []Val, p token.Pos) []Val 
 // callFnParam: call of a function-typed parameter described by a fnparam spec.
 func (fr *Frame) callFnParam(fv *FuncVal, args []Val, p token.Pos, sig *types.Signature) []Val {
 	sp := fv.param
+	for _, a := range args {
+		if a.t != nil {
+			fr.cx.noteEscape(a.t)
+		}
+	}
 	old := fr.st.clone()
 	env := fv.paramEnv(args, fr.st, old)
 	for i, rq := range sp.Requires {
@@ -409,13 +427,45 @@ func parseTypeExpr(s string) (ast.Expr, error) {
 
 // ---------- defers ----------
 
-func (fr *Frame) runDefers() {
+func (fr *Frame) runDefers() { fr.runDefersAt(nil) }
+
+// canReach: is there a CFG path from block a to block c?
+func canReach(a, c *ssa.BasicBlock) bool {
+	seen := map[*ssa.BasicBlock]bool{}
+	var dfs func(x *ssa.BasicBlock) bool
+	dfs = func(x *ssa.BasicBlock) bool {
+		if x == c {
+			return true
+		}
+		if seen[x] {
+			return false
+		}
+		seen[x] = true
+		for _, s := range x.Succs {
+			if dfs(s) {
+				return true
+			}
+		}
+		return false
+	}
+	return dfs(a)
+}
+
+func (fr *Frame) runDefersAt(at *ssa.BasicBlock) {
 	b := fr.b()
 	ds := fr.defers
 	for i := len(ds) - 1; i >= 0; i-- {
 		d := ds[i]
 		// the defer statement was executed on this path iff its reach holds
 		g := d.reach
+		if at != nil && d.instr.Block() != nil {
+			db := d.instr.Block()
+			if db == at || db.Dominates(at) {
+				g = b.True() // registered on every path that gets here
+			} else if !canReach(db, at) {
+				continue // never registered on a path that gets here
+			}
+		}
 		base := fr.reach
 		cond := b.And(base, g)
 		if isFalse(cond) {
